@@ -371,3 +371,64 @@ def run(p, led, tier):
                      witness="five false alarms, then a fingerprint matching a remembered threat: inspect() → CRITICAL/SHUTDOWN")
         else:
             led.ok("C17-R3", key, where(sinsp, sinsp.node), f"{len(paths)} path(s): NONE/IGNORE")
+
+    # ---------------- R4b the tolerance filter is applied once per threat: a history of two inspections of the same
+    # anomalous behaviour under an applicable tolerance rule never ends more than one rank below the T cell's response
+    led.rule("C17-R4", "Treg: CRITICAL is returned unsuppressed and unchanged; any other producible response is lowered by at most one rank", 6)
+
+    def go_twice(o):
+        it = Interp(p, o)
+        tc = mk_tcell(it, 1, "flagged")
+        tc.fields["anergy_count"] = 0
+        tc.fields["anergy_threshold"] = 5
+        sysobj = it.instantiate(isys, [], {})
+        pep = mk_peptide(it, "present")
+        it.stubs["MHCDisplay.generate_peptide"] = lambda interp, args, kwargs: pep
+        sysobj.fields["displays"]["a1"] = Obj(p.cls("MHCDisplay", SV + "display.py"), {})
+        sysobj.fields["tcells"]["a1"] = tc
+        tr = sysobj.fields["treg"]
+        # one rule that always applies (e.g. "agent was recently updated")
+        from ..fdai import stub as _stub
+
+        @_stub
+        def applies(interp, args, kwargs):
+            return interp.o.choose(2, "tolerance rule applies / does not apply") == 0
+        always = Obj(rule_cls, dict(name="always", condition=applies, max_severity=member(it, TL, "CONFIRMED"), duration=None))
+        tr.fields["rules"] = [always]
+        it.call_fi(p.find_method(treg, "register_agent"), [tr, "a1"], {})
+        outs = []
+        for _ in range(2):
+            r = it.call_fi(sinsp, [sysobj, "a1"], {})
+            outs.append((nm(r.fields["threat_level"]), nm(r.fields["action"])))
+        return outs
+    try:
+        paths = explore(go_twice, max_paths=400)
+    except Imprecise as e:
+        raise AnchorError(f"two-inspection history could not be interpreted: {e}")
+    key = "ImmuneSystem.inspect ▸ same anomalous behaviour inspected twice under an applicable tolerance rule"
+    bad2 = []
+    for _, outs in paths:
+        (t1, a1), (t2, a2) = outs
+        if t1 == "CONFIRMED" and t2 in ("CONFIRMED", "CRITICAL"):
+            # recommended action of a CONFIRMED threat is ISOLATE; one rank below is MONITOR
+            if RANK.get(a2, 0) < RANK["MONITOR"]:
+                bad2.append(f"first inspection {t1}/{a1}, second {t2}/{a2}: the remembered threat was softened again (two ranks below ISOLATE)")
+    if bad2:
+        led.fail("C17-R4", key, where(sinsp, sinsp.node), sorted(set(bad2))[0],
+                 witness="a CONFIRMED threat under a matching tolerance rule: first inspect → MONITOR (stored), second inspect answered from memory → IGNORE")
+    else:
+        led.ok("C17-R4", key, where(sinsp, sinsp.node), f"{len(paths)} path(s): the second response is never more than one rank below the recommended action")
+
+    # ---------------- R6 nothing on the inspection path answers from a memo whose key can stay equal while its inputs change
+    led.rule("C17-R6", "no method of the surveillance classes returns a stored result under a validity key that does not determine what the computation reads", 1)
+    from ..resolve import Resolver
+    from ..rules import memo_findings
+    res_ = Resolver(p)
+    nm_ = 0
+    for fi in p.all_funcs:
+        if fi.module.rel.startswith(SV) and fi.cls is not None:
+            for node, text in memo_findings(p, res_, fi):
+                nm_ += 1
+                led.fail("C17-R6", f"{fi.qual} ▸ memoised return", where(fi, node), text,
+                         witness="fill the observation window with anomalous behaviour, then return to normal: the fingerprint never changes again and the agent stays CONFIRMED")
+    led.ok("C17-R6", "surveillance ▸ memoised returns", SV, f"{sum(1 for f in p.all_funcs if f.module.rel.startswith(SV))} function(s) scanned; {nm_} stale-memo site(s)")
